@@ -194,10 +194,17 @@ impl RuleGen {
         }
         let days = ["monday", "tuesday", "wednesday", "thursday", "friday", "saturday", "sunday"];
         let mut weekday_pool = Vec::new();
-        for _ in 0..3 {
+        // runs of consecutive days from a few start days (so that one list is often a prefix of another), in the
+        // order given, plus unordered random sets
+        let starts = [rng.below(7), 6, 0];
+        for _ in 0..4 {
+            let st = *rng.pick(&starts);
+            let k = rng.range(1, 3);
+            weekday_pool.push((0..k).map(|i| days[(st + i) % 7].to_string()).collect::<Vec<String>>());
+        }
+        for _ in 0..2 {
             let k = rng.range(1, 4);
             let mut v: Vec<String> = (0..k).map(|_| rng.pick_str(&days)).collect();
-            v.sort();
             v.dedup();
             weekday_pool.push(v);
         }
@@ -298,7 +305,7 @@ impl RuleGen {
             let v: Vec<Value> = (0..n).map(|_| rng.pick(&self.time_pool).clone()).collect();
             source["time"] = json!(v);
         }
-        if swarm.datetime && rng.chance(1, 6) {
+        if swarm.datetime && rng.chance(1, 3) {
             source["weekdays"] = json!(rng.pick(&self.weekday_pool).clone());
         }
         // path
@@ -559,10 +566,11 @@ fn window_edges(rule: &Value) -> Vec<i64> {
         }
     }
     if rule["source"]["weekdays"].is_array() {
-        // day boundaries around T0
+        // every day boundary of the week around T0 (T0 is a Sunday)
         let day0 = T0 - T0.rem_euclid(86400);
-        v.push(day0);
-        v.push(day0 + 86400);
+        for k in -3..=4 {
+            v.push(day0 + k * 86400);
+        }
     }
     v
 }
@@ -769,6 +777,11 @@ fn gen_case(rng: &mut Rng, prop: &str, mode: &str, tier: Tier) -> W1Case {
                             // midnight / week boundaries
                             let day0 = T0 - T0.rem_euclid(86400);
                             (day0 + 86400 * rng.below(3) as i64 - if rng.coin() { 1 } else { 0 }, if rng.coin() { 999_999_999 } else { 0 })
+                        }
+                        2 => {
+                            // any day of the week, any time of day
+                            let day0 = T0 - T0.rem_euclid(86400);
+                            (day0 + 86400 * (rng.below(8) as i64 - 3) + rng.below(86400) as i64, rng.below(1_000_000_000) as u32)
                         }
                         _ => (clock + rng.range(1, 7200) as i64, rng.below(1_000_000_000) as u32),
                     }
